@@ -171,6 +171,17 @@ def run(ctx):
                         key='DOM:%s:inner-remainder-ignored' % p_)
     ctx.anchor(n_inner >= 1, 'a parser call on a locally built buffer (parse_compressed)')
 
+    # ---------------- clause 6: atoms keep their text through interning -------------------------------------------
+    ctx.rule('C03.6-atom-interning', 'every decoded atom goes through Atom::new, which interns a few common names through two parallel tables: each (text, index) entry points at the cached entry with the same text', floor=1)
+    from ..etf import check_atom_tables
+    check_atom_tables(ctx, 'C03.6-atom-interning')
+
+    # ---------------- clause 7: the order that keys decoded maps ---------------------------------------------------
+    ctx.rule('C03.7-map-key-order', 'MAP_EXT entries are collected into a BTreeMap keyed by the term type: "no map entry is dropped or merged" needs an order under which two different keys never compare Equal - '
+             'the comparator rules of C11/C12 (no self-comparison, big integers by sign, length and digits from the most significant end, no truncating reads, lists with the length as tie-break ...) re-run here', floor=60)
+    from ..order import map_key_order_rules
+    map_key_order_rules(ctx, 'C03.7-map-key-order')
+
     # ---------------- clause 5: CAST over the decoder ----------------------------------------------------
     ctx.rule('C03.5-cast', 'wire numbers are widened, never narrowed, except under a range guard', floor=3)
     REVIEWED = {
